@@ -31,6 +31,15 @@ def cleanup_frees_all_stmt : Prop := ∀ (a : Args) (evs : List Ev),
   (run a evs).phase = .done ∨ (run a evs).phase = .rejected →
   (run a (evs ++ [.cleanup])).l.reqOwned = 0 ∧ (run a (evs ++ [.cleanup])).l.badFree = 0
 
+/-- partial result towards `cleanup_frees_all_stmt`: in EVERY state (reachable or not) whose ledger agrees with the request's
+    pointer fields (`Rel`: a heap `path`/`bufs`/`ptr` has exactly one live block of its role, scandir entries from the iterator
+    position on, readdir names up to `result`, …), uv_fs_req_cleanup frees everything the request owns, frees nothing twice
+    and leaves the caller's directory handle alone.  Missing for the full statement: `Rel` holds in every reachable state
+    (preservation by `work`, `submit`, `cqe`; `scandirNext` and `cleanup` are done: `next_rel`, `cleanup_of_rel`). -/
+theorem cleanup_frees_all_partial (s : St) (h : Rel s.req s.l) (hb : s.req.bufs ≠ .user) :
+    (cleanup s).l.reqOwned = 0 ∧ (cleanup s).l.badFree = 0 ∧ (cleanup s).l.userOwned = s.l.userOwned :=
+  cleanup_of_rel s h hb
+
 /-- uv_fs_req_cleanup leaves `path`, `new_path`, `bufs` and `ptr` NULL, whatever state the request was in -/
 theorem cleanup_nulls (s : St) :
     (cleanup s).req.path = .null ∧ (cleanup s).req.newPath = false ∧ (cleanup s).req.bufs = .null ∧ (cleanup s).req.ptr = .null := by
